@@ -47,6 +47,11 @@ def _case(draw):
         case["r"] = draw(st.one_of(st.just(m), st.just(1), st.integers(1, m)))
     elif op == "scale":
         case["k"] = draw(st.integers(1, 8))
+        # the optional meta_sequence argument (documented for factors below 1; it must not change integer scaling)
+        case["meta_seq"] = draw(st.sampled_from([None, None, "self", "other"]))
+        if case["meta_seq"] == "other":
+            case["other"] = {"notes": [], "meta": [["ts", 0, draw(st.integers(2, 7)), draw(st.sampled_from([4, 8]))]], "route": "abs_sorted",
+                             "pad": draw(st.integers(0, 300)), "post": None}
     else:
         case["c"] = draw(st.integers(0, 15))
     return case
@@ -89,7 +94,12 @@ def check(case):
         elif op == "cutoff":
             seq.cutoff(case["m"], case["r"])
         elif op == "scale":
-            seq.scale(case["k"], quantise_afterwards=False)
+            if case.get("meta_seq"):
+                out.label("scale-with-meta-sequence")
+                seq.scale(case["k"], meta_sequence=seq if case["meta_seq"] == "self" else build.sequence(case["other"]),
+                          quantise_afterwards=False)
+            else:
+                seq.scale(case["k"], quantise_afterwards=False)
         else:
             seq.set_channel(case["c"])
     except Exception as e:
